@@ -276,15 +276,18 @@ structure Obs (K : Type) where
 def Results.obs (r : Results K) (dflt : K) : Obs K :=
   ⟨r.status, r.anyChange, r.limitExceeded, r.its, r.normIn.getD dflt, r.normOut, r.threw⟩
 
-/-- outcome clauses shared by the Newton paths of projectQ / projectU -/
+/-- outcome clauses shared by the Newton paths of projectQ / projectU.  (A FORCED projection that starts within the
+accuracy and only makes things worse restores the entry state but still reports failure with exit norm = entry norm
+`≤ acc`; hence `… || o.force` in the failure clauses.) -/
 def newtonOutcome (o : Opts K) (ob : Obs K) (maxIts : Nat) : Bool :=
   decide (1 ≤ ob.its) && decide (ob.its ≤ maxIts) && ob.anyChange && (o.force || decide (o.acc < ob.normIn)) &&
   match ob.normOut with
   | none => false
   | some n =>
     (ob.status == .succeeded && decide (n ≤ o.acc) && !ob.threw) ||
-    (ob.status == .failedAcc && decide (o.acc < n) && (ob.threw == !o.dontThrow)) ||
-    (ob.status == .failedConv && decide (o.acc < n) && o.localOnly && decide (2 ≤ ob.its) && (ob.threw == !o.dontThrow))
+    (ob.status == .failedAcc && (decide (o.acc < n) || o.force) && (ob.threw == !o.dontThrow)) ||
+    (ob.status == .failedConv && (decide (o.acc < n) || o.force) && o.localOnly && decide (2 ≤ ob.its) &&
+      (ob.threw == !o.dontThrow))
 
 /-- acceptance of an observed projectQ outcome: one clause per exit of the code -/
 def acceptsQ (o : Opts K) (ob : Obs K) : Bool :=
@@ -409,12 +412,13 @@ def minNormWeighted (n : Nat) (A : List (List K)) (tp winv b : List K) : List K 
   (List.zipWith (· * ·) winv (mulVecTL n A' lam), lam, M)
 
 /-- the same step restricted to the free columns (`calcWeightedPqrTranspose` packs rows of `~Pqw`), zero in the
-prescribed slots (`unpackFreeQ` into a zero vector) -/
-def minNormStep (n : Nat) (free : List Nat) (A : List (List K)) (tp winv b : List K) : List K :=
+prescribed slots (`unpackFreeQ` into a zero vector).  Returns `(dq, λ, M)`. -/
+def minNormStep (n : Nat) (free : List Nat) (A : List (List K)) (tp winv b : List K) :
+    List K × List K × List (List K) :=
   let Ar := A.map (fun r => pack free r 0)
   let wr := pack free winv 0
-  let x := (minNormWeighted free.length Ar tp wr b).1
-  unpack free x (List.replicate n 0)
+  let r := minNormWeighted free.length Ar tp wr b
+  (unpack free r.1 (List.replicate n 0), r.2.1, r.2.2)
 
 end Dense
 
